@@ -38,6 +38,8 @@ struct Obs {
 #[derive(Default)]
 struct Stub {
     next: u64,
+    /// varies the size pattern of the tokens from run to run
+    salt: u64,
     calls: u64,
     /// bytes handed to the most recent creator call, and the plaintext for ciphers
     last_bytes: Option<Vec<u8>>,
@@ -45,9 +47,17 @@ struct Stub {
 }
 
 impl Stub {
+    /// Unique per call (so that every stored value is attributable to one create event), padded
+    /// to one of the usual signature / tag / ciphertext sizes half of the time.
     fn token(&mut self) -> Vec<u8> {
         self.next += 1;
-        format!("TOK#{}#", self.next).into_bytes()
+        let mut t = format!("TOK#{}#", self.next).into_bytes();
+        let sizes = [0usize, 0, 0, 0, 8, 16, 32, 48, 64, 66, 96, 132];
+        let n = sizes[(self.next as usize * 7 + self.salt as usize) % sizes.len()];
+        while t.len() < n {
+            t.push((t.len() as u8).wrapping_mul(41));
+        }
+        t
     }
 }
 
@@ -225,8 +235,8 @@ fn v5(msg: String) -> SendErr {
 }
 
 impl Sender {
-    fn new(failed: Vec<usize>) -> Sender {
-        Sender { stub: RefCell::new(Stub::default()), obs: vec![], tokens: vec![], failed, prot: crate::model::MHeader::default(), payload: None, st_fail_fired: 0, last_token: None, slot: None, signers: vec![], rcpts: vec![] }
+    fn new(failed: Vec<usize>, salt: u64) -> Sender {
+        Sender { stub: RefCell::new(Stub { salt, ..Stub::default() }), obs: vec![], tokens: vec![], failed, prot: crate::model::MHeader::default(), payload: None, st_fail_fired: 0, last_token: None, slot: None, signers: vec![], rcpts: vec![] }
     }
 
     fn enc(&self, h: &crate::model::MHeader) -> Result<Vec<u8>, SendErr> {
@@ -1229,7 +1239,7 @@ impl Engine for C06 {
         // sender, with retry after an injected creator failure
         let mut failed: Vec<usize> = Vec::new();
         let (built, mut obs, tokens, wire_model) = loop {
-            let mut s = Sender::new(failed.clone());
+            let mut s = Sender::new(failed.clone(), t.run);
             match send(&kind, &ops, &mut s) {
                 Ok(b) => {
                     st.add("fault:creator-fails", failed.len() as u64);
